@@ -19,6 +19,7 @@ from Bio.Seq import Seq
 from Bio.SeqFeature import SeqFeature
 from Bio.SeqRecord import SeqRecord
 from inscripta.biocantor.gene import (
+    CDSFrame,
     TranslationTable,
     AnnotationCollection,
     GeneInterval,
@@ -312,6 +313,13 @@ def add_cds_feature(
     location = transcript.cds.chunk_relative_location.to_biopython()
     feature = SeqFeature(location, type=GeneIntervalFeatures.CDS.value, strand=strand.value)
     feature.qualifiers = transcript_qualifiers
+
+    # GenBank locations carry no per-block frames: the start frame travels as /codon_start
+    # (1-based position of the first base of the first complete codon within the 5'-most block)
+    frames = transcript.cds.chunk_relative_frames
+    start_frame = frames[-1] if transcript.cds.chunk_relative_location.strand == Strand.MINUS else frames[0]
+    if start_frame != CDSFrame.NONE:
+        feature.qualifiers["codon_start"] = [start_frame.value + 1]
 
     if update_translations:
         # if the sequence has N's, we cannot translate
